@@ -52,6 +52,9 @@ APPLICABLE = {
     "oserror_read": {"R.readinto"},
     "short_read": {"R.readinto"},
     "oserror_open": {"open"},
+    # not a fault: the scheduler lets another client's whole operation run while this call is
+    # inside an I/O call (where a thread would give up the interpreter lock)
+    "yield": {"T.write", "T.read", "T.readline", "T.next", "R.write", "R.readinto"},
 }
 FAULT_KINDS = tuple(sorted(APPLICABLE))
 
@@ -74,6 +77,7 @@ class IOSim:
         self.fin_events = 0
         self.kinds = {}           # event name -> count (whole run)
         self.frame_marks = []     # op_ev values at which a text write started with a header
+        self.stack = []           # brackets of enclosing operations (an operation nested at a yield)
 
     # -- path ownership ---------------------------------------------------------------
     def claims(self, file):
@@ -93,6 +97,7 @@ class IOSim:
 
     # -- operation bracket --------------------------------------------------------------
     def begin_op(self, plan=None):
+        self.stack.append((self.op_ev, self.sha, self.plan, self.fired, self.frame_marks))
         self.op_ev = 0
         self.sha = hashlib.sha256()
         self.plan = dict(plan) if plan else None
@@ -102,7 +107,12 @@ class IOSim:
     def end_op(self):
         """-> (events in the op, hex digest of them, fired fault or None)"""
         out = (self.op_ev, self.sha.hexdigest()[:16], self.fired)
-        self.plan = None
+        if self.stack:
+            self.op_ev, self.sha, self.plan, self.fired, self.frame_marks = self.stack.pop()
+            if not self.stack:
+                self.plan = None
+        else:
+            self.plan = None
         return out
 
     # -- the one place every event goes through --------------------------------------
@@ -121,6 +131,9 @@ class IOSim:
             kind = pl["kind"]
             self.fired = (kind, name, self.op_ev)
             self.sha.update(f"FAULT|{kind}\n".encode())
+            if kind == "yield":
+                pl["run"]()
+                return None
             if kind == "interrupt":
                 raise SimInterrupt("simulated cancellation")
             if kind == "oserror_write":
